@@ -184,25 +184,33 @@ Section Synth.
   Definition eff_residual (T : tenv) (W Q : poly) (k : Qc) : poly :=
     pclean (preduce T (psub W (pscale k Q))).
 
-  Definition check_closed_form (k : Qc) (l : list (Qc * eitem)) (f : epolyQ) : bool :=
-    forallb (fun n => Qc_eqb (eevalQ f (S n)) (k * eevalQ f n + eff_val l n)) (seq 0 (max_sp l))
+  (* the candidate closed form: special values fsp for n < length fsp (what Polar writes
+     Piecewise((v0, n <= 0), ..., (general, True))), the exponential polynomial f from there on *)
+  Definition fval (fsp : list Qc) (f : epolyQ) (n : nat) : Qc :=
+    if Nat.ltb n (List.length fsp) then nth n fsp 0 else eevalQ f n.
+
+  Definition check_closed_form (k : Qc) (l : list (Qc * eitem)) (fsp : list Qc) (f : epolyQ) : bool :=
+    forallb (fun n => Qc_eqb (fval fsp f (S n)) (k * fval fsp f n + eff_val l n))
+            (seq 0 (Nat.max (max_sp l) (List.length fsp)))
     && eeq (R := Qc_cring) (eshift f) (eadd (escale (R := Qc_cring) k f) (eff_epoly l)).
 
-  Definition check_synth (fp : flatprog) (T : tenv) (Q : poly) (k : Qc) (items : list eitem) (f : epolyQ) : bool :=
+  Definition check_synth (fp : flatprog) (T : tenv) (Q : poly) (k : Qc) (items : list eitem)
+             (fsp : list Qc) (f : epolyQ) : bool :=
     check_types fp T
     && forallb (check_item fp T) items
     && match wp_gas cmom T (fp_body fp) Q, wp_gas cmom [] (fp_init fp) Q with
        | Some W, Some Iw =>
            match eff_items (eff_residual T W Q k) items with
-           | Some l => pequiv [] Iw (pconst (eevalQ f 0)) && check_closed_form k l f
+           | Some l => pequiv [] Iw (pconst (fval fsp f 0)) && check_closed_form k l fsp f
            | None => false
            end
        | _, _ => false
        end.
 
   (* k may be left to the validator: any of the listed candidates *)
-  Definition check_synth_any (fp : flatprog) (T : tenv) (Q : poly) (ks : list Qc) (items : list eitem) (f : epolyQ) : bool :=
-    existsb (fun k => check_synth fp T Q k items f) ks.
+  Definition check_synth_any (fp : flatprog) (T : tenv) (Q : poly) (ks : list Qc) (items : list eitem)
+             (fsp : list Qc) (f : epolyQ) : bool :=
+    existsb (fun k => check_synth fp T Q k items fsp f) ks.
 
   Lemma eval_eff_residual T W Q k s : typed T s ->
     eval_poly W s = k * eval_poly Q s + eval_poly (eff_residual T W Q k) s.
@@ -211,14 +219,19 @@ Section Synth.
     rewrite eval_psub, eval_pscale. ring.
   Qed.
 
-  Lemma closed_form_step k l f : check_closed_form k l f = true ->
-    forall n, eevalQ f (S n) = k * eevalQ f n + eff_val l n.
+  Lemma fval_general fsp f n : (List.length fsp <= n)%nat -> fval fsp f n = eevalQ f n.
+  Proof. intros H. unfold fval. apply Nat.ltb_ge in H. rewrite H. reflexivity. Qed.
+
+  Lemma closed_form_step k l fsp f : check_closed_form k l fsp f = true ->
+    forall n, fval fsp f (S n) = k * fval fsp f n + eff_val l n.
   Proof.
     unfold check_closed_form. intros H n. apply andb_true_iff in H; destruct H as [H1 H2].
-    destruct (Nat.ltb n (max_sp l)) eqn:En.
+    destruct (Nat.ltb n (Nat.max (max_sp l) (List.length fsp))) eqn:En.
     - apply Nat.ltb_lt in En. rewrite forallb_forall in H1.
       apply Qc_eqb_true. apply H1. apply in_seq. lia.
-    - apply Nat.ltb_ge in En. rewrite (eff_val_general l n En).
+    - apply Nat.ltb_ge in En.
+      rewrite (eff_val_general l n) by lia.
+      rewrite (fval_general fsp f n), (fval_general fsp f (S n)) by lia.
       pose proof (eeq_sound Qc_cring _ _ H2 n) as Eq.
       rewrite (eeval_eshift Qc_cring), (eeval_eadd Qc_cring), (eeval_escale Qc_cring) in Eq.
       exact Eq.
@@ -253,10 +266,10 @@ Section Synth.
       rewrite (eval_eff_residual T W Q k s (Hd w s Hs)), He. reflexivity.
   Qed.
 
-  Theorem check_synth_sound fp T Q k items f :
-    check_synth fp T Q k items f = true ->
+  Theorem check_synth_sound fp T Q k items fsp f :
+    check_synth fp T Q k items fsp f = true ->
     forall s0, init_ok fp T s0 ->
-    forall n, E (frun law fp n s0) (eval_poly Q) = eevalQ f n.
+    forall n, E (frun law fp n s0) (eval_poly Q) = fval fsp f n.
   Proof.
     unfold check_synth. intros H s0 H0.
     apply andb_true_iff in H; destruct H as [H H3].
@@ -273,22 +286,22 @@ Section Synth.
       symmetry. apply closed_form_step. exact Hf.
   Qed.
 
-  Corollary check_synth_any_sound fp T Q ks items f :
-    check_synth_any fp T Q ks items f = true ->
+  Corollary check_synth_any_sound fp T Q ks items fsp f :
+    check_synth_any fp T Q ks items fsp f = true ->
     forall s0, init_ok fp T s0 ->
-    forall n, E (frun law fp n s0) (eval_poly Q) = eevalQ f n.
+    forall n, E (frun law fp n s0) (eval_poly Q) = fval fsp f n.
   Proof.
-    unfold check_synth_any. rewrite existsb_exists. intros [k [_ H]]. exact (check_synth_sound fp T Q k items f H).
+    unfold check_synth_any. rewrite existsb_exists. intros [k [_ H]]. exact (check_synth_sound fp T Q k items fsp f H).
   Qed.
 
   (* two accepted closed forms for the same polynomial denote the same sequence (k = 1 search
      and general search of the CLI; invariants returned next to a synthesized loop) *)
-  Corollary check_synth_agree fp T Q k items f k' items' f' :
-    check_synth fp T Q k items f = true -> check_synth fp T Q k' items' f' = true ->
-    forall s0, init_ok fp T s0 -> forall n, eevalQ f n = eevalQ f' n.
+  Corollary check_synth_agree fp T Q k items fsp f k' items' fsp' f' :
+    check_synth fp T Q k items fsp f = true -> check_synth fp T Q k' items' fsp' f' = true ->
+    forall s0, init_ok fp T s0 -> forall n, fval fsp f n = fval fsp' f' n.
   Proof.
     intros H H' s0 H0 n.
-    rewrite <- (check_synth_sound _ _ _ _ _ _ H s0 H0 n), <- (check_synth_sound _ _ _ _ _ _ H' s0 H0 n).
+    rewrite <- (check_synth_sound _ _ _ _ _ _ _ H s0 H0 n), <- (check_synth_sound _ _ _ _ _ _ _ H' s0 H0 n).
     reflexivity.
   Qed.
 
